@@ -19,6 +19,9 @@ func NewPlanarYUVLuminanceSource(yuvData []byte,
 	dataWidth, dataHeight, left, top, width, height int,
 	reverseHorizontal bool) (LuminanceSource, error) {
 
+	if left < 0 || top < 0 || width < 0 || height < 0 {
+		return nil, errors.New("IllegalArgumentException: Crop rectangle must not have a negative origin or size")
+	}
 	if left+width > dataWidth || top+height > dataHeight {
 		return nil, errors.New("IllegalArgumentException: Crop rectangle does not fit within image data")
 	}
@@ -92,6 +95,9 @@ func (this *PlanarYUVLuminanceSource) IsCropSupported() bool {
 }
 
 func (this *PlanarYUVLuminanceSource) Crop(left, top, width, height int) (LuminanceSource, error) {
+	if left < 0 || top < 0 {
+		return nil, errors.New("IllegalArgumentException: Crop rectangle must not have a negative origin")
+	}
 	return NewPlanarYUVLuminanceSource(
 		this.yuvData,
 		this.dataWidth,
